@@ -8,6 +8,20 @@ structure St where
   cfg : Cfg := ⟨10, 8, 2⟩
   w : Wheel := Wheel.init ⟨10, 8, 2⟩
   clk : Int := 0
+  /-- the harness's virtual epoch (`kBaseNs`, 30 days; op `base`): the model works on ABSOLUTE clock values `base + clk`, because the
+  saturating deadline (`deadlineAfter`) depends on them; `dump` prints offsets from the epoch like the harness -/
+  base : Int := 2592000000000000
+
+def St.now (st : St) : Int := st.base + st.clk
+
+/-- absolute virtual clock values stay 10^15 ns below `tpMax` (as the harness) -/
+def clockLimit : Int := 9223372036854775807 - 1000000000000000
+
+/-- delays: the full range of `std::chrono::milliseconds::rep` except `LLONG_MIN` (as the harness) -/
+def delay? (s : String) : Option Int :=
+  match s.toInt? with
+  | some d => if d.natAbs ≤ 9223372036854775807 then some d else none
+  | none => none
 
 def commaSep (xs : List String) : String := if xs.isEmpty then "-" else ",".intercalate xs
 
@@ -19,10 +33,10 @@ def sortNat (l : List Nat) : List Nat := l.foldr (fun x acc => (acc.filter (· <
 def walkOrder (c : Cfg) (w : Wheel) : List Entry :=
   (List.range c.levels).flatMap fun l => (List.range c.slots).flatMap fun b => w.entries.filter (inBucket l b)
 
-def dump (c : Cfg) (w : Wheel) : String :=
+def dump (c : Cfg) (base : Int) (w : Wheel) : String :=
   let cur := ",".intercalate ((List.range c.levels).map (fun l => toString (curAt w l)))
-  let la := match w.lastAdvance with | none => "none" | some t => toString t
-  let es := commaSep ((walkOrder c w).map (fun e => s!"{e.id}:{e.level}:{e.bucket}:{e.deadline}"))
+  let la := match w.lastAdvance with | none => "none" | some t => toString (t - base)
+  let es := commaSep ((walkOrder c w).map (fun e => s!"{e.id}:{e.level}:{e.bucket}:{e.deadline - base}"))
   s!"cur={cur} la={la} acc={bit w.accepting} map={w.entries.length} e={es}"
 
 def pow2 (n : Nat) : Bool := n > 0 && (n &&& (n - 1)) == 0
@@ -34,46 +48,64 @@ def step (st : St) : List String → St × String
       if t = 0 || !pow2 s || l = 0 || s > 65536 || l > 8 then (st, "bad-op")
       else
         let c : Cfg := ⟨t, s, l⟩
-        ({ cfg := c, w := Wheel.init c, clk := 0 }, "ok")
+        ({ cfg := c, w := Wheel.init c, clk := 0, base := 2592000000000000 }, "ok")
     | _, _, _ => (st, "bad-op")
-  | ["start"] => ({ st with w := start st.w st.clk }, "ok")
+  | ["start"] => ({ st with w := start st.w st.now }, "ok")
+  | ["base", n] =>
+    match n.toNat? with
+    | some n => if n = 0 || (n : Int) > clockLimit - st.clk then (st, "bad-op") else ({ st with base := n }, "ok")
+    | none => (st, "bad-op")
+  | ["wreset"] =>
+    if st.w.state = .stopped then ({ st with w := reset st.w }, "ok") else (st, "not-stopped")
+  | ["mtsched", a, b, d] =>
+    match a.toNat?, b.toNat?, delay? d with
+    | some a, some b, some _ =>
+      if a < 1 || a > 8 || b < 1 || b > 50000 then (st, "bad-op")
+      else
+        -- W1 (ids pairwise distinct, conservation) for ANY interleaving of the a*b schedule() calls: every call takes a fresh id
+        -- (`_nextId.fetch_add`, Gen.Timer.wheelIdAllocAtomic) and links one entry; the op then cancels them all again
+        let acc := if st.w.accepting then a * b else 0
+        ({ st with w := { st.w with nextId := st.w.nextId + acc } },
+         s!"acc={acc} dups=0 pending_short=0 cancelled={acc} next={st.w.nextId + acc}")
+    | _, _, _ => (st, "bad-op")
   | ["clk", n] =>
     match n.toNat? with
-    | some n => ({ st with clk := n }, "ok")
+    | some n => if (n : Int) > clockLimit - st.base then (st, "bad-op") else ({ st with clk := n }, "ok")
     | none => (st, "bad-op")
   | ["sched", d] =>
-    match d.toInt? with
-    | some d => let r := schedule st.cfg st.w st.clk d; ({ st with w := r.1 }, toString r.2)
+    match delay? d with
+    | some d => let r := schedule st.cfg st.w st.now d; ({ st with w := r.1 }, toString r.2)
     | none => (st, "bad-op")
   | ["cancel", i] =>
     match i.toNat? with
     | some i => let r := cancel st.w i; ({ st with w := r.1 }, bit r.2)
     | none => (st, "bad-op")
   | ["resched", i, d] =>
-    match i.toNat?, d.toInt? with
-    | some i, some d => let r := reschedule st.cfg st.w st.clk i d; ({ st with w := r.1 }, bit r.2)
+    match i.toNat?, delay? d with
+    | some i, some d => let r := reschedule st.cfg st.w st.now i d; ({ st with w := r.1 }, bit r.2)
     | _, _ => (st, "bad-op")
   | ["adv", n] =>
     match n.toNat? with
     | some n =>
-      let r := advance st.cfg st.w n
+      if (n : Int) > clockLimit - st.base then (st, "bad-op") else
+      let r := advance st.cfg st.w (st.base + n)
       ({ st with w := r.1, clk := n }, s!"n={r.2.length} f={showIds r.2}")
     | none => (st, "bad-op")
   | ["vclock"] => (st, "virtual")
   | ["pending"] => (st, toString st.w.entries.length)
-  | ["dump"] => (st, dump st.cfg st.w)
+  | ["dump"] => (st, dump st.cfg st.base st.w)
   | ["drain", t] =>
     match t.toInt? with
     | some t =>
       -- virtual time stands still inside the call: the timeout test `elapsed >= timeout` fails at once iff timeout <= 0
       let budget := if t ≤ 0 then 0 else st.w.entries.length
-      let r := drain st.w st.clk budget
+      let r := drain st.w st.now budget
       let ids := commaSep ((sortNat (r.2.fired.map (·.id))).map toString)
       ({ st with w := r.1 }, s!"f={ids} fired={r.2.fired.length} c={r.2.cancelled.length} r={r.2.remaining.length}")
     | none => (st, "bad-op")
   | ["stop"] => ({ st with w := (stop st.w).1 }, "ok")
   | ["race", d] =>
-    match d.toInt? with
+    match delay? d with
     | some d =>
       -- the F32 schedule: scheduler tests the flag; stop() runs completely; scheduler locks, (re-tests,) inserts
       let x0 : Race.St := { accepting := st.w.accepting }
@@ -82,7 +114,7 @@ def step (st : St) : List String → St × String
       let w1 := (stop st.w).1
       let id := st.w.nextId
       let w2 := if parked then { w1 with nextId := id + 1 } else w1
-      let w3 := if x.stored then insertEntry st.cfg w2 id (st.clk + d * nsPerMs) d else w2
+      let w3 := if x.stored then insertEntry st.cfg w2 id (deadlineAfter st.now d) d else w2
       ({ st with w := w3 }, s!"parked={bit parked} id={if x.s = .accepted then id else 0} pending={w3.entries.length}")
     | none => (st, "bad-op")
   | _ => (st, "bad-op")
